@@ -47,6 +47,8 @@ def main() -> int:
         return driver.run_check(args[1].upper(), args[2])
     if args[0] == "replay":
         return driver.replay_file(args[1])
+    if args[0] == "runcase":
+        return driver.runcase_file(args[1])
     if args[0] == "digests":
         from sim import selftest
 
